@@ -7,6 +7,7 @@ import (
 	"net/http"
 	"net/url"
 	"strconv"
+	"strings"
 
 	admv1 "k8s.io/api/admission/v1"
 	regv1 "k8s.io/api/admissionregistration/v1"
@@ -79,6 +80,11 @@ func VH_C14_admission() {
 	// the hook's behaviour
 	outcome := zz.Len("hook_outcome", 0, 3) // 0 exit!=0, 1 no response written, 2 denies, 3 allows
 	withPatch := zz.Bool("with_patch")
+	// the patch a hook writes can be long (a JSON patch with many operations)
+	patchText := "cGF0Y2g="
+	if withPatch && zz.Bool("long_patch") {
+		patchText = strings.Repeat("cGF0Y2g9", 200)
+	}
 	msg := zz.OneOf("message", "", "not allowed by policy")
 	var ranHook, ranBinding []string
 	hook.VRunFn = func(h *hook.Hook, bt htypes.BindingType, ctxs []bctx.BindingContext, _ map[string]string) (*hook.Result, error) {
@@ -95,7 +101,7 @@ func VH_C14_admission() {
 		}
 		r := &admission.Response{Allowed: outcome == 3, Message: msg, Warnings: []string{"w1"}}
 		if withPatch {
-			r.Patch = []byte("cGF0Y2g=")
+			r.Patch = []byte(patchText)
 		}
 		return &hook.Result{AdmissionResponse: r}, nil
 	}
@@ -146,7 +152,7 @@ func VH_C14_admission() {
 		if outcome >= 2 {
 			zz.Assert(len(resp.Warnings) == 1 && resp.Warnings[0] == "w1", "warnings_are_relayed")
 			if withPatch {
-				zz.Assert(resp.PatchType != nil && *resp.PatchType == admv1.PatchTypeJSONPatch && string(resp.Patch) == "cGF0Y2g=", "patch_is_relayed_as_json_patch")
+				zz.Assert(resp.PatchType != nil && *resp.PatchType == admv1.PatchTypeJSONPatch && string(resp.Patch) == patchText, "patch_is_relayed_as_json_patch")
 			} else {
 				zz.Assert(resp.PatchType == nil && len(resp.Patch) == 0, "no_patch_no_patch_type")
 			}
